@@ -185,6 +185,43 @@ fn bolt(e: &Env, rng: &mut impl Rng, which: &str, m: usize, r: usize, n: usize) 
     emit(base, out);
 }
 
+/// The slot layouts of the BOLT helpers (Bolt.tla): encoded inputs and weights of operands with (nearly) pairwise distinct
+/// entries and the positions `encode_outputs` writes the result to, decoded back to slot vectors.
+fn bolt_layout(e: &Env, which: &str, m: usize, r: usize, n: usize) {
+    let x: Vec<u64> = (0..m * r).map(|i| 1 + (i as u64 % (e.t - 1))).collect();
+    let w: Vec<u64> = (0..r * n).map(|i| 1 + ((2 + 3 * i as u64) % (e.t - 1))).collect();
+    let c: Vec<u64> = (0..m * n).map(|i| 1 + ((5 + 7 * i as u64) % (e.t - 1))).collect();
+    let mut ev = json!({"k": "bolt_layout", "helper": which, "N": e.n, "t": e.t, "m": m, "r": r, "n": n, "x": x, "w": w, "c": c});
+    let slots = |p: &heathcliff::app::matmul::Plain2d| -> Vec<Vec<Vec<u64>>> { p.iter().map(|row| row.iter().map(|pt| e.enc.decode_new(pt)).collect()).collect() };
+    let out = guarded(|| match which {
+        "bolt_cp" => {
+            let h = MatmulBoltCp::new(m, r, n, e.n);
+            (slots(&h.encode_inputs(&e.enc, &x)), slots(&h.encode_weights(&e.enc, &w)), slots(&h.encode_outputs(&e.enc, &c)))
+        }
+        "bolt_cc_cr" => {
+            let h = MatmulBoltCcCr::new(m, r, n, e.n);
+            (slots(&h.encode_inputs(&e.enc, &x)), slots(&h.encode_weights(&e.enc, &w)), slots(&h.encode_outputs(&e.enc, &c)))
+        }
+        _ => {
+            let h = MatmulBoltCcDc::new(m, r, n, e.n);
+            (slots(&h.encode_inputs(&e.enc, &x)), slots(&h.encode_weights(&e.enc, &w)), slots(&h.encode_outputs(&e.enc, &c)))
+        }
+    });
+    match out {
+        Ok((xi, wi, ci)) => {
+            ev["enc_in"] = json!(xi);
+            ev["enc_w"] = json!(wi);
+            ev["enc_out"] = json!(ci);
+            ev["panicked"] = json!(false);
+        }
+        Err(msg) => {
+            ev["panicked"] = json!(true);
+            ev["panic"] = json!(msg);
+        }
+    }
+    println!("{}", ev);
+}
+
 fn conv(e: &Env, rng: &mut impl Rng, bs: usize, ci: usize, co: usize, h: usize, w: usize, kh: usize, kw: usize, reverse: bool) {
     conv_with(e, rng, bs, ci, co, h, w, kh, kw, reverse, false);
 }
@@ -511,6 +548,36 @@ pub fn main(args: &[String]) {
         for (m, r, n) in shapes {
             for which in ["bolt_cp", "bolt_cc_cr", "bolt_cc_dc"] {
                 bolt(&e, &mut rng, which, m, r, n);
+            }
+        }
+        // the slot layouts, and results at the degrees at which Bolt.tla checks the rotation programs
+        let e8 = env(8, 97, vec![55, 55, 55, 55]);
+        let e16 = env(16, 97, vec![55, 55, 55, 55]);
+        let top = if quick { 5 } else { 7 };
+        for en in [&e8, &e16, &e] {
+            for m in 1..=top {
+                for r in 1..=top {
+                    for n in 1..=top {
+                        if quick && en.n != 8 && (m + 2 * r + 3 * n) % 3 != 0 {
+                            continue;
+                        }
+                        for which in ["bolt_cp", "bolt_cc_cr", "bolt_cc_dc"] {
+                            bolt_layout(en, which, m, r, n);
+                        }
+                    }
+                }
+            }
+            for (m, r, n) in [(en.n / 2 + 1, 2usize, 3usize), (3, en.n / 2 + 2, 2), (2, 3, en.n + 1), (en.n + 1, en.n / 2 + 1, 2)] {
+                for which in ["bolt_cp", "bolt_cc_cr", "bolt_cc_dc"] {
+                    bolt_layout(en, which, m, r, n);
+                }
+            }
+        }
+        for en in [&e8, &e16] {
+            for (m, r, n) in [(1usize, 1usize, 1usize), (2, 3, 4), (4, 5, 3), (3, 3, 3), (5, 2, 5), (3, 7, 2), (9, 3, 2)] {
+                for which in ["bolt_cp", "bolt_cc_cr", "bolt_cc_dc"] {
+                    bolt(en, &mut rng, which, m, r, n);
+                }
             }
         }
     }
